@@ -1,7 +1,14 @@
 #!/bin/bash
-# Run every check (quick tier) against every kept first-round seed to fill the "also caught by" column.
+# Run every check (quick tier) against every kept seed to fill the "also caught by" column of seeded/README.md.
+# Patches are applied only in /tmp/seedtest_wt (a scratch worktree), never in /repo.
 cd "$(dirname "$0")/.."
-for d in seeded/C??-[AB]; do
-  n=$(basename $d); pid=${n%-*}; var=${n#*-}
-  python3 tools/seed_process.py /tmp/seed_$pid $var 2>&1 | grep "kept as\|NOT CONFIRMED"
+for d in seeded/C??-[AB] seeded/C??-[AB]2; do
+  [ -d "$d" ] || continue
+  n=$(basename $d); pid=${n%%-*}; var=${n#*-}
+  if [[ "$var" == *2 ]]; then
+    python3 tools/seed_process.py /tmp/seed_$pid ${var%2} --out=_out2 --suffix=2 2>&1 | grep "kept as\|NOT CONFIRMED"
+  else
+    python3 tools/seed_process.py /tmp/seed_$pid $var 2>&1 | grep "kept as\|NOT CONFIRMED"
+  fi
 done
+python3 tools/seeded_readme.py > /dev/null
